@@ -215,7 +215,7 @@ def check_writers(ctx, fb, rw):
 
 
 def run(ctx):
-    fbs = ctx.facts(['K17', 'K20'], kinds=('probe', 'lib'))
+    fbs = ctx.facts(['K17', 'K20'], kinds=('probe', 'lib'), tests=r'/test/')
     rl = ctx.rule('R-LINEAR', 'Submit ends the job by exactly one of Call/Drop/enqueue on every path; dequeue sites '
                   'finish every node once', minimum=10)
     rr = ctx.rule('R-ROUTE.call', 'Call steps reach their functor only through Submit; inline steps never submit',
